@@ -18,6 +18,12 @@ CHECKS = {
          "All fork trees up to 3 (quick) / 4 (thorough) blocks up to isomorphism with every difficulty vector from the alphabet (SKIP_POW universes as in the repo's fork tests) and real-PoW fork universes; every order of process_block / process_block_header / duplicate / sync_block_headers events including children before parents. After every event: head is an accepted block with accepted ancestors, moved only to strictly more work, has the greatest work among accepted blocks and equals the reference fork choice, reported Next/Fork/Reorg status and fork point equal the model's, verdict and accepted set equal the orphan model's; at quiescence with a unique maximum the best-chain state equals a twin fed the winning path only and is identical over all orders.",
          "Orphan pool within capacity; trees <= 4 blocks; difficulty alphabets {1,3} / {1,2,4}.",
          "DESIGN.md §4 C03"),
+ "C04": ("exploration",
+         "bounded-exhaustive enumeration: every height x mutation operator x {raw, re-mined} x entry point on real-PoW chains against a reference header-rule function; every difficulty window within a deviation bound against a u128 reference retarget",
+         "c04",
+         "On real-PoW AutomatedTesting chains of 16 blocks (versions 1-5, DMA->WTEMA switch) every height x 35 single-field operators x {raw, re-mined} is offered to process_block_header, process_block, sync_block_headers (as the k-th of a batch) and UntrustedBlockHeader::read on a fresh snapshot; accept iff a reference written from the property text (own header serialisation, blake2b, siphash/Cuckatoo check, proof difficulty, header MMR, retarget) accepts; rejected headers leave header_head, header MMR and head unchanged. next_difficulty is compared with a u128 reference on all 61-entry windows within <=2 (quick) / <=3 (thorough) deviations of the regular baseline, all short windows with pre-genesis padding, on all four chain types and every fork era, with the minimum/damp/clamp bounds and determinism; header_version / graph_weight at every fork boundary.",
+         "Generator restricted to windows a valid chain can produce (difficulty sums below 2^58; see evidence assumptions). edge_bits 29 cannot be re-mined here (raw variant only).",
+         "DESIGN.md §4 C04"),
  "C05": ("exploration",
          "bounded-exhaustive enumeration: every strictly ascending 8-tuple of tiny Cuckoo graphs for each of the 5 graph definitions against an explicit-graph reference; closed near-miss lists on solver-found cycles",
          "c05",
@@ -30,6 +36,12 @@ CHECKS = {
          "At every state of every delivery history of a two-fork universe with spends and reorgs in both directions, every applicable corrupted block of a closed catalogue (PoW, header rules, kernel signature, range proof, kernel offset, coinbase flags, wrong roots / MMR sizes after the working state was modified, double spend, unknown input, immature coinbase; header-first and header-batch delivery) and every valid losing-fork block is delivered: the best-chain fingerprint must be unchanged, nothing but an itself-valid header (and the fork block) may be remembered, and the valid sibling must then be processed exactly as by a twin that never saw the bad input.",
          "One corruption per failure stage (src/corrupt.rs); universe of 12 valid blocks.",
          "DESIGN.md §4 C06"),
+ "C08": ("model_checking",
+         "explicit-state exploration (DFS over directory snapshots, memoised) of the real on-disk prunable PMMRBackend through the chain's usage protocol against an unpruned reference MMR",
+         "c08",
+         "For a fixed-size and a variable-size element type, every history of up to 3 (quick) / 4 (thorough) units of work - optional block-by-block rewind to any earlier boundary not below the compaction cutoff, then one or two blocks of appends and removals of any <= 2 live leaves, then sync or discard - interleaved with up to two compactions at any boundary and a reopen, is executed on the real backend; after every step the view through PMMR::at must equal an unpruned reference: root, size, data and hash of every live leaf, None for spent leaves, a verifying Merkle proof for every live leaf, leaf_pos_iter, leaf_idx_iter(from) for every from, n_unpruned_leaves, PMMR::validate.",
+         "Rewinds stay at or above the last compaction cutoff and precede the appends of a unit (the store's usage protocol). Chain-level compaction is exercised by C09's compaction scenarios, not by a separate twin here.",
+         "DESIGN.md §4 C08"),
  "C09": ("fault_enumeration",
          "exhaustive crash-point enumeration: every durable step of each scenario is a kill point (child process aborted by hook), judged by reopen + validate + reference unspent set + re-delivery vs uninterrupted twin",
          "c09",
@@ -42,6 +54,12 @@ CHECKS = {
          "A catalogue of every consensus and wire type (kernels of all variants and field corners, inputs in both encodings, outputs, bodies 0..3x1..3x1..3 (thorough 0..4), transactions, blocks, compact blocks, Proof/ProofOfWork/headers for every edge_bits 10..63 at proof sizes 8 and 42, Segment<T>, SegmentProof, BitmapSegment in all modes at the thresholds, Tip/CommitPos/BlockSums, all handshake and sync messages) is encoded at versions 1, 2, 3, local and db, parsed by a reference structure-map parser, decoded, compared field-wise, re-encoded (byte identity) and hashed (version independence, equality with a reference identity layout). At every site of every encoding: every tag byte x 256, every count +-1, every adjacent swap and duplication in sorted lists, every reserved/padding bit, out-of-range values; an accepted non-canonical encoding that re-encodes differently or must be refused is a violation.",
          "Trailing unread bytes after a lowered count are an outcome class, not a violation (top-level decoders read one object from the front of a stream). 12 genuine normalisation findings listed in known_findings.json.",
          "DESIGN.md §4 C10"),
+ "C11": ("exploration",
+         "bounded-exhaustive structure-aware mutation space over every network-reachable decoder, each case run in supervised worker processes with catch_unwind, allocation monitor, CPU watchdog and RLIMIT_AS",
+         "c11",
+         "Subjects: Codec::read on a socket, all 25 message body types, Segment<T> x4 and BitmapSegment followed by the stateless validators exactly as Desegmenter::add_*_segment calls them, MerkleProof::read / from_hex, Hand/Shake via read_message, API transaction decode; protocol versions 1, 2, 3, 1000. Space: all byte strings of length <= 2; for 396 honest seeds with a recorded structure map: every truncation, every byte x 256 values, every integer field x ~45 boundary values, splices at field boundaries. A case passes iff it yields a value or Err without panic, abort, hang (2 s CPU) or a single allocation above 16*len + 128 KiB; a dying case-runner is attributed to the case it published. Planted faults verify the monitors on every run.",
+         "The additive allocation constant covers the format's documented 100 000-byte field cap. Four genuine panics/over-allocations found were repaired by fix: commits (known_findings.json 'fixed').",
+         "DESIGN.md §4 C11"),
  "C12": ("exploration",
          "bounded-exhaustive enumeration: every sub-multiset x permutation x bracketing of a 9-transaction universe through aggregate / cut_through / deaggregate, every grouping and nonce set through compact-block hydration, against a multiset model over known openings",
          "c12",
@@ -59,7 +77,18 @@ CHECKS = {
          "c07",
          "Every node position and MMR size up to the bound (65 536 quick / 1 048 576 thorough nodes), every (size,pos) of family_branch, every leaf count up to 2 048 / 16 384 (push, root, peaks, validate, read-only views), every leaf of every MMR up to 96 / 320 leaves x every single corruption of element, position and path, all executed on the real code and compared with a forest built by definition with its own blake2b hashing. Exhaustive within these bounds; nothing sampled.",
          "Trusts blake2-rfc; positions >= 2^63 outside the domain; proof.mmr_size not mutated (excluded by the property).",
-         "DESIGN.md §4 C07"),
+         "DESIGN.md §4 C07"), "C19": ("exploration",
+         "exhaustive enumeration of environment decisions: message sequences x protocol versions x every split point of the TCP byte stream (FIONREAD-synchronised fragments) read by the real Codec; per-type length limits; handshake script",
+         "c19",
+         "The real Codec reads from a loopback TcpStream; the writer delivers the next fragment only when the reader has consumed the previous one (no sleeps). Alphabet of 718 items (all message types with real content, Headers with 0..65 items, attachments of 0..100 000 bytes, every unknown type byte x three body lengths) x versions {1,2,3,1000}: every single item and the stated groups of pairs (and triples in thorough) at every single split point, and every pair of split points for streams <= 96 bytes. Received messages must equal the sent sequence (header batches of <= 32 with correct 'remaining', attachment chunks, Unknown skipped without desync). Every type x boundary and over-limit announced lengths, wrong magic, header counts inconsistent with length: refused with 0 body bytes consumed and no allocation of the announced size. Handshake: negotiated version = min for 8 remote versions, genesis mismatch, self-connect, wrong first message.",
+         "Delays beyond the codec's own I/O timeouts are outside the property. Per-type limit = 4 x nominal size.",
+         "DESIGN.md §4 C19"),
+ "C20": ("exploration",
+         "bounded-exhaustive product of seeds x derivation paths x amounts x switch modes x builder generations; blinding arithmetic over all small signed multisets and orders against scalar arithmetic mod n; builder multisets",
+         "c20",
+         "derive_key/commit determinism (twice and from a re-created keychain) and commit = amount*H + key*G for 3 seeds x 781 paths (depth 0..4) x 6 amounts x 2 switch modes (complete in thorough, counted pairwise cover in quick); proof create/verify/rewind with own seed exact, other seeds None, view keys; all signed multisets of size <= 3 over {zero, 4 keys} in every order through blind_sum/add/split vs 256-bit scalar arithmetic written in the harness; all balancing input/output/fee multisets through the three builder functions; reward::output for 3 fees x paths x generations.",
+         "LegacyProofBuilder recovers depth/switch only for depth 3 + Regular (message layout); view keys cannot pass hardened steps. One known finding (view key + Regular switch unimplemented), two defects repaired.",
+         "DESIGN.md §4 C20"),
 }
 
 NOT_YET = "engine not built yet in this session (see DESIGN.md §7b build order); not claimed until its check exists"
